@@ -542,6 +542,51 @@ def r20_6(ctx):
     return n
 
 
+DECIMAL_CONVERTERS = ('atoi', 'atol', 'atoll')
+RADIX_CONVERTERS = ('strtol', 'strtoll', 'strtoul', 'strtoull', 'strtoimax', 'strtoumax')
+
+
+def r20_7(ctx):
+    """a value the command line recognises as an integer by its decimal digits (is_integer)
+    is converted in base 10: an integer external then has the value the same digits have as
+    a literal in a rule (the lexer reads literals in base 10; octal needs the 0o prefix).  A
+    conversion with base 0 reads `0100` as 64 and `09` as 0."""
+    from .C14 import canon
+    prog = ctx.prog
+    n = 0
+    for f in prog.fns():
+        if not (f.file.startswith('cli/') or ctx.fixture):
+            continue
+        for node in f.all_nodes():
+            if node['k'] != 'if':
+                continue
+            cnd = f.kid(node, 0)
+            calls = [x for x in f.walk(cnd) if x['k'] == 'call' and x.get('callee') == 'is_integer']
+            if not calls:
+                continue
+            tested = canon(f, f.call_args(calls[0])[0])
+            then = f.kids(node)[1] if len(f.kids(node)) > 1 else None
+            k = 0
+            for x in (f.walk(then) if then is not None else ()):
+                if x['k'] != 'call':
+                    continue
+                cal = x.get('callee')
+                if cal not in DECIMAL_CONVERTERS and cal not in RADIX_CONVERTERS:
+                    continue
+                a = f.call_args(x)
+                if not a or canon(f, a[0]) != tested:
+                    continue
+                n += 1
+                ok = cal in DECIMAL_CONVERTERS or (len(a) > 2 and cu.const_of(cu.strip_casts(f, a[2])) == 10)
+                ctx.ob('R20.7', '%s:integer-conversion#%d:decimal' % (f.name, k), ok, f.loc(x),
+                       '%s recognised by is_integer() is converted in base 10 (%s)' % (tested, cal) if ok else
+                       '%s was recognised as a run of decimal digits and is converted with %s: a leading '
+                       'zero changes the value, the external no longer equals the literal with the same '
+                       'spelling' % (tested, canon(f, x)[:50]))
+                k += 1
+    return n
+
+
 FIXTURES = {
     'R20.5': {'src': 'C20/define.c', 'run': r20_5, 'expect': 'to_object_bad:switch0:handles-every-external-type',
               'expect_ok': 'to_object_good:switch0:handles-every-external-type'},
@@ -565,3 +610,5 @@ def run(ctx):
     ctx.floor('R20.5', 1)
     r20_6(ctx)
     ctx.floor('R20.6', 4)
+    r20_7(ctx)
+    ctx.floor('R20.7', 2)
